@@ -13,16 +13,16 @@ E1 = "Trusted: " + TB + "."
 CLAIMED = {
     "C01": dict(
         technique="bounded symbolic execution (CrossHair+z3) of Grammar.fuzz and of the repair/crossover/mutation pipeline with every random draw symbolic; independent derivation checker as oracle",
-        text="(a) Unit steps: for the real Alternative/Concatenation/Repetition/Star/Plus/Option/NonTerminalNode.fuzz with stub sub-nodes, symbolic bounds, budgets, override arguments and draws, every path expands exactly the children the node's grammar meaning allows and tags iterations consistently. (b) All seeds within the draw bound: every execution path of Grammar.fuzz on 6 grammars (draws <= 8, budgets {0,2,5,12}); (c) the pipeline fuzz -> evaluate -> repetition/equality repair -> repair | crossover | mutation on 4 specs: every produced tree is a derivation (independent checker), rooted at the start symbol, helper-free, with consistent bookkeeping. Bounded; the induction from per-step validity to whole search histories is not mechanised.",
+        text="(a) Unit steps: for the real Alternative/Concatenation/Repetition/Star/Plus/Option/NonTerminalNode.fuzz with stub sub-nodes, symbolic bounds, budgets, override arguments and draws, every path expands exactly the children the node's grammar meaning allows and tags iterations consistently. (b) All seeds within the draw bound: every execution path of Grammar.fuzz on 6 grammars (draws <= 8, budgets {0,2,5,12}); (c) the pipeline fuzz -> evaluate -> repetition/equality repair -> repair | crossover | mutation on 5 specs (incl. a repeated group with inner and trailing terminals): every produced tree is a derivation (independent checker), rooted at the start symbol, helper-free, with consistent bookkeeping. Bounded; the induction from per-step validity to whole search histories is not mechanised.",
         note=E1 + " Outside: regex terminals, generators (C16), non-default Gmutator settings, whole evolutionary runs.", ref="DESIGN.md section 3 C01"),
     "C02": dict(
         technique="AST->SMT (z3 Float64) threshold-soundness query on Evaluator.evaluate_individual + CrossHair execution of real constraints/Evaluator on symbolic trees (exception path)",
-        text="E2: z3 shows on the formula generated from the current source that no assignment of per-constraint results (solved/total <= 1000, or raising) with h+r <= 2 (thorough <= 4) lets a tree be yielded while a hard or repetition-bound constraint is violated or raised (IEEE doubles; quotient lemma proved separately). E1: 8 constraint programs whose evaluation can raise, on all trees of the C07 bound: a raising combination makes the constraint fail, fitness < 1, and the real Evaluator does not yield the tree.",
+        text="E2: z3 shows on the formula generated from the current source that no assignment of per-constraint results (solved/total <= 1000, or raising) with h+r <= 2 (thorough <= 4) lets a tree be yielded while a hard or repetition-bound constraint is violated or raised (IEEE doubles; quotient lemma proved separately). E1: 8 constraint programs whose evaluation can raise, on all trees of the C07 bound: a raising combination makes the constraint fail, fitness < 1, and the real Evaluator does not yield the tree. (c) a spec with two computed repetitions over the same item whose printed forms coincide: the real Evaluator enforces both bounds on every tree of the family.",
         note=E1 + " Plus engine/pysym.py (validated per run against the real Evaluator, bit-identical floats). Outside: liveness, whole runs, soft constraints.", ref="DESIGN.md section 3 C02"),
     "C03": dict(
         engine="E2-pysym",
         technique="AST->SMT (z3 Float64) translation of Evaluator.evaluate_individual, threshold-completeness query over all constraint counts; plus CrossHair execution of the real Evaluator over all declaration orders",
-        text="z3 decides, on a formula generated from the current source of Evaluator.evaluate_individual/_evaluate_constraints/ConstraintFitness.fitness and IoEvaluator.evaluate_individual, that no counts h, r <= 64 (thorough 1000) of satisfied hard/repetition-bound constraints make an all-satisfied first-seen tree miss the acceptance threshold (IEEE-754 double, RNE). The translator is validated on >=200 random concrete vectors against the real Evaluator (bit-identical floats); class-mean lemma proved for k<=12 (64). Declaration orders: CrossHair executes the real constructor and evaluate_individual for every hard/rep order of length <= 6 (10).",
+        text="z3 decides, on a formula generated from the current source of Evaluator.evaluate_individual/_evaluate_constraints/ConstraintFitness.fitness and IoEvaluator.evaluate_individual, that no counts h, r <= 64 (thorough 1000) of satisfied hard/repetition-bound constraints make an all-satisfied first-seen tree miss the acceptance threshold (IEEE-754 double, RNE). The translator is validated on >=200 random concrete vectors against the real Evaluator (bit-identical floats); class-mean lemma proved for k<=12 (64). Declaration orders: CrossHair executes the real constructor and evaluate_individual for every hard/rep order of length <= 6 (10). Generation loop: the repair + re-evaluation statements of Fandango._generate_simple (extracted from the current source) report every satisfying individual they evaluate for the first time, for every 2-individual population over 16 trees and every already-evaluated pattern.",
         note="Trusted: z3 5.1 FP theory, engine/pysym.py (validated per run), stubs listed in evidence (cache miss, first-seen tree, logging no-op). Outside: soft constraints, more constraints than the bound, protocol-message gating of IoEvaluator.",
         ref="DESIGN.md section 3 C03"),
     "C04": dict(
@@ -31,7 +31,7 @@ CLAIMED = {
         note=E1 + " Outside: regex terminals on words outside the stated alphabets, words beyond the bound, grammars outside the family, bit-level inputs.", ref="DESIGN.md section 3 C04"),
     "C05": dict(
         technique="bounded symbolic execution of the real parser vs a reference recogniser (both directions) + Grammar.fuzz round trip with symbolic draws",
-        text="For 12 literal-terminal grammars (incl. empty-deriving repetition bodies, the same nullable symbol twice, {0,m}) and ANY str word up to the bound: the real parser yields a tree iff the reference recogniser accepts; 6 regex-terminal grammars (incl. a regex that matches the empty string): the same for ALL words over a stated alphabet up to length 3-4. For 5 grammars and every draw sequence within the bound, plus regex terminals through a stubbed generator and a bytes grammar: the serialisation of the generated tree parses back to a tree with the same serialisation. One genuine incompleteness is carried as known finding C05-starrep.",
+        text="For 12 literal-terminal grammars (incl. empty-deriving repetition bodies, the same nullable symbol twice, {0,m}) and ANY str word up to the bound: the real parser yields a tree iff the reference recogniser accepts; 6 regex-terminal grammars (incl. a regex that matches the empty string): the same for ALL words over a stated alphabet up to length 3-4. For 5 grammars and every draw sequence within the bound, plus regex terminals through a stubbed generator, a bytes grammar and a bytes regex with a whitespace class next to control bytes: the serialisation of the generated tree parses back to a tree with the same serialisation. One genuine incompleteness is carried as known finding C05-starrep.",
         note=E1 + " Outside: regex terminals on words outside the stated alphabets, bit-level grammars, the constraint filter of --validate.", ref="DESIGN.md section 3 C05"),
     "C06": dict(
         technique="bounded symbolic execution of the real parser with the number of admitted Earley states counted against a bound derived from the compiled rule table",
@@ -41,6 +41,10 @@ CLAIMED = {
         technique="bounded symbolic execution of real constraint objects (eager and lazy) on symbolic trees; differential against a reference evaluator written from the documentation",
         text="29 constraint programs covering every selector and combinator named in the property, each read by the real reader; for EVERY tree of the bound (1-2 records over leaf alphabet {0,5,a}) check() equals the reference verdict, lazy equals eager, fitness < 1 when violated, and a one-constraint Evaluator yields the tree exactly when the constraint holds.",
         note=E1 + " Constraint programs are a fixed list (not solver variables). Outside: other grammars, deeper trees, '->'.", ref="DESIGN.md section 3 C07"),
+    "C08": dict(
+        technique="bounded symbolic execution (CrossHair+z3) of the code objects Fandango builds from embedded Python vs CPython's own compilation of the same text, on symbolic data; one verdict per program of an enumerated corpus",
+        text="In part: programs are ENUMERATED (the ANTLR front end cannot run on symbolic text), data is symbolic. For each of ~320 expressions (all 121 ordered pairs of binary operators, unary/comparison/boolean/conditional operators, lambdas with every parameter kind, comprehensions, slices, calls with */** arguments, literals, f-strings, symbol references inside nested scopes), 24 top-level constraint formulas and 31 helper-code programs (parameter kinds, defaults, closures, control flow, exceptions, with, classes, augmented assignment, unpacking, imports, generators, decorators): what Fandango executes - the constraint object evaluated through Constraint.check(), resp. the function run_code() defined - returns the same type-exact value or raises the same exception class as CPython's compilation of the same text, for ALL ints in the stated range, strings over {a,b} and leaf contents over {0,2,7,a}. Programs the reader rejects with an error are reported, not compared. Three classes of genuine deviations are carried as known findings (f-string literal parts, f-string '='/'{{', top-level not/comparison chains).",
+        note=E1 + " NOT covered: the space of programs beyond the corpus, AST equality, generator (:=) and repetition-bound expression sites, the C++ front end.", ref="DESIGN.md section 10"),
     "C09": dict(
         technique="bounded symbolic execution of TreeValue / DerivationTree.value over symbolic leaf sequences, contents, nesting and request order; oracle from the property text",
         text="For every leaf sequence (<= 2 items quick / 3 with the leaf kinds fixed per condition: text, bytes, 8-bit run, 4-bit run), content from alphabets spanning the UTF-8 length classes and the Latin-1 boundary, flat or cut into sibling subtrees, each view (str, bytes, to_string, to_bytes, value().to_string, int of bit-only trees) equals the in-order concatenation oracle (or raises exactly when a bit run is misaligned), and any order of repeated requests on the tree and on one shared TreeValue gives the results of a fresh copy and leaves the leaves unchanged.",
@@ -76,7 +80,7 @@ CLAIMED = {
         note=E1 + " Outside: interleaving two active runs (the cap is process-wide by design while a run is active), FandangoIO singletons.", ref="DESIGN.md section 3 C18"),
     "C19": dict(
         technique="bounded symbolic execution of the real PacketForecaster along every message history in the depth bound; z3 regular-expression reference for continuations and completeness",
-        text="For 5 protocol specs (option/star/bounded repetition/nesting; alternation with a two-message branch under a star; repeated two-message group; nested repetition of alternatives; one message type sent by both parties) and 2 specs sliced to a subset of parties, and EVERY message history of depth <= 3 (thorough 5) reachable through the offered options: the offered (sender, recipient, type) set equals the continuation set of the message-level language and 'complete' is reported exactly for full interactions - both decided by z3 on a regular expression derived from the grammar IR (for sliced specs: from the unsliced IR with a harness-owned slicing).",
+        text="For 6 protocol specs (two alternatives beginning with the same factored-out sub-rule; option/star/bounded repetition/nesting; alternation with a two-message branch under a star; repeated two-message group; nested repetition of alternatives; one message type sent by both parties) and 2 specs sliced to a subset of parties, and EVERY message history of depth <= 3 (thorough 5) reachable through the offered options: the offered (sender, recipient, type) set equals the continuation set of the message-level language and 'complete' is reported exactly for full interactions - both decided by z3 on a regular expression derived from the grammar IR (for sliced specs: from the unsliced IR with a harness-owned slicing).",
         note=E1 + " Outside: computed repetitions in protocol grammars, deeper histories, generators in protocol specs.", ref="DESIGN.md section 3 C19"),
     "C20": dict(
         technique="bounded symbolic execution of the real receive path (parse_next_remote_packet + FandangoIO buffer) under symbolic remote data, interleaving and arrival schedule; z3 send-gate query on IoEvaluator",
@@ -85,7 +89,6 @@ CLAIMED = {
 }
 
 NOT_APPLICABLE = {
-    "C08": "the translator under test is ANTLR-generated lexer/parser code plus visitors over its parse tree; a symbolic program text is realised character by character by the ATN simulator, so no solver-based engine here can quantify over programs (DESIGN.md section 5)",
     "C14": "one side is a compiled C++ extension (sa_fandango_cpp_parser.so); CrossHair realises at the C boundary and no IR-level symbolic engine for C++ is available (DESIGN.md section 5)",
     "C17": "a statement about two whole OS processes of the full evolutionary pipeline; its nondeterminism sources (hash randomisation, id(), clocks) are not modelled by any available engine and no bounded unit captures it (DESIGN.md section 5)",
 }
